@@ -13,7 +13,7 @@ RULE = ('L1: every single-clause predicate p(t1..tk) :- B, k<=2 over 14 head-arg
         'of <=2 [thorough: 3] clauses over p/1,q/1 with head argument in {X,a,b,f(X)} and body of <=1 goal '
         '[thorough, 2-clause programs: <=2 goals] over p|q x {X,Y,a,b,f(X)} (direct, mutual and left recursion, '
         'duplicate clauses), queries p(A) p(a) p(f(A)) q(A). L1b: every body of 2 or 3 [thorough: 4] goals over 10 goals whose outcome depends on WHEN they are called (callees using \\=, a cut, negation; explicit unifications). L2b: every sequence of 3 [thorough: 4] clauses of ONE predicate r/2 over 6 head shapes x 4 bodies (the same variable name as plain head argument, nested, repeated or body-only in different clauses). L3: append/member/len/nat/rev/in/path idioms over '
-        'every DAG on 3 nodes in every argument mode. L4: 6 templates with many anonymous variables (alone and combined in one program, so that the program-wide numbering of _ reaches 13) x EVERY injective naming of their two named variables from a menu of 44 names (_1.._14, look-alikes of the compiler\'s own argument, loop, flag and prefix names, Python constants). L5: two activations of the same clause alive at once (two goals of one body, recursion over a list, caller and callee) over 11 term shapes whose variables are anonymous, named or mixed, in the head or in a body goal, queried with equal, different, aliased and unbound arguments. Each program is compiled, loaded into a fresh engine and '
+        'every DAG on 3 nodes in every argument mode. L4: 6 templates with many anonymous variables (alone and combined in one program, so that the program-wide numbering of _ reaches 13) x EVERY injective naming of their two named variables from a menu of 44 names (_1.._14, look-alikes of the compiler\'s own argument, loop, flag and prefix names, Python constants). L5: two activations of the same clause alive at once (two goals of one body, recursion over a list, caller and callee) over 11 term shapes whose variables are anonymous, named or mixed, in the head or in a body goal, queried with equal, different, aliased and unbound arguments. L6: sizes beyond these bounds - pipeline clauses path(In,Out) :- step(In,A1),...,step(Ak,Out), a head variable used only by the last goal, a variable shared by the first and last goal only, for EVERY body length 1..19; tables of N clauses plus a catch-all for 23 values of N up to 130. Each program is compiled, loaded into a fresh engine and '
         'every query is compared answer by answer (bindings up to renaming incl. aliasing, order, multiplicity, '
         'termination under a deterministic step budget, no exception) with RefProlog. states = distinct '
         'per-program outcome tuples; transitions = next() calls; non-trivial = some query has an answer')
@@ -365,6 +365,41 @@ def l5_cases():
             idx += 1
 
 
+# ---------------------------------------------------------------- L6: long bodies, wide predicates
+# Sizes beyond the small-program bounds, in every way a variable can travel through a long clause:
+# a pipeline path(In,Out) :- step(In,A1), ..., step(Ak,Out); a head variable used only by the LAST
+# goal; a variable shared by the first and the last goal only - for every body length 1..19; and
+# tables of N clauses for N around every power of two up to 130.
+def l6_cases():
+    idx = 0
+    nodes = [A('n%d' % i) for i in range(21)]
+    steps = [(F('step', nodes[i], nodes[i + 1]), None) for i in range(20)] + [(F('step', nodes[3], nodes[9]), None)]
+    extra = [(F('tag', A('t1')), None), (F('tag', A('t2')), None)]
+    for n in range(1, 20):
+        vs = [V('In')] + [V('A%d' % i) for i in range(1, n)] + [V('Out')]
+        pipeline = (F('path', V('In'), V('Out')), conj(*[call(F('step', vs[i], vs[i + 1])) for i in range(n)]))
+        qs = [F('path', nodes[0], QA), F('path', QA, nodes[n]), F('path', nodes[0], nodes[n]), F('path', nodes[0], nodes[5]), F('path', QA, QB)]
+        yield idx, 'pipeline-%d' % n, steps + [pipeline], qs
+        idx += 1
+        # Late only occurs in the head and in the last goal; First in the first and the last goal
+        filler = [call(F('tag', V('F%d' % i))) for i in range(1, n)]
+        late = (F('late', V('Late'), V('F1') if n > 1 else V('Late')), conj(*(filler + [call(F('tag', V('Late')))])))
+        yield idx, 'late-head-variable-%d' % n, extra + [late], [F('late', QA, QB), F('late', A('t2'), QB), F('late', A('zz'), QB)]
+        idx += 1
+        if n >= 19:
+            continue    # one more goal would exceed what the compiler accepts (20 nested blocks, C11)
+        both = (F('both', V('R')), conj(*([call(F('step', V('S'), V('M')))] + filler + [call(F('step', V('M'), V('R')))])))
+        yield idx, 'first-and-last-goal-share-%d' % n, steps + extra + [both], [F('both', nodes[2]), F('both', QA)] if n < 6 else [F('both', nodes[2])]
+        idx += 1
+    for n in (1, 2, 3, 4, 5, 7, 8, 9, 15, 16, 17, 31, 32, 33, 34, 63, 64, 65, 66, 100, 128, 129, 130):
+        table = [(F('tab', A('k%d' % i), A('v%d' % i)), None) for i in range(1, n + 1)] + [(F('tab', ('v', ('_', 1)), A('default')), None)]
+        qs = [F('tab', A('k1'), QA), F('tab', A('k%d' % n), QA), F('tab', QA, A('v%d' % n)), F('tab', QA, A('default')), F('tab', A('nokey'), QA)]
+        if n <= 34:
+            qs.append(F('tab', QA, QB))
+        yield idx, 'table-%d' % n, table, qs
+        idx += 1
+
+
 # ---------------------------------------------------------------- plan / run
 NSH = 48
 
@@ -379,6 +414,7 @@ def plan(tier):
     sh += [('L3', k, 8) for k in range(8)]
     sh += [('L4', k, NSH) for k in range(NSH)]
     sh += [('L5', k, 8) for k in range(8)]
+    sh += [('L6', k, 16) for k in range(16)]
     sh += [('L2b', k, NSH, 3) for k in range(NSH)]
     sh += [('L1b', k, 16, 2) for k in range(16)] + [('L1b', k, NSH, 3) for k in range(NSH)]
     if not q:
@@ -440,6 +476,16 @@ def run_shard(spec):
             account(acc, ('L2b', ncl, idx), case, res, key=case.describe()['scripts'][1]['text'])
             if idx % 3001 == 0 and res['status'] == 'ok' and res['nontrivial']:
                 acc.sample({'layer': 'L2b', 'program': case.describe()['scripts'][1]['text']}, limit=1)
+    elif spec[0] == 'L6':
+        _, k, n = spec
+        for idx, name, prog, qs in l6_cases():
+            if idx % n != k:
+                continue
+            case = Case([(prog, True, False)], [], qs, repeat=1, ref_steps=60000, ref_depth=60, budget=True)
+            res = case.run()
+            if res['status'] == 'violation':
+                res['sig'] = 'long-or-wide:' + res['sig']
+            account(acc, ('L6', idx), case, res, key=name)
     elif spec[0] == 'L5':
         _, k, n = spec
         for idx, name, prog, qs in l5_cases():
